@@ -13,8 +13,8 @@ Definition post {A} (P : A -> Prop) (r : res A) : Prop := match r with Ok a => P
 Ltac leaf := cbn [post]; try exact I; unfold offs_ok in *;
   cbn [f_off4 f_off6 f_offU f_offT f_offP set_id set_offP set_offU set_offT set_ports set_echo] in *; try lia.
 
-Lemma parse_proto_post s f proto :
-  wf s -> (0 < f_offP f)%nat -> offs_ok (len s) f -> post (offs_ok (len s)) (parse_proto s f proto).
+Lemma parse_proto_post fx s f proto :
+  wf s -> (0 < f_offP f)%nat -> offs_ok (len s) f -> post (offs_ok (len s)) (parse_proto fx s f proto).
 Proof.
   intros Hwf H0 Hf. assert (H1 : (f_offP f <= len s)%nat) by (unfold offs_ok in Hf; lia).
   unfold parse_proto.
@@ -37,9 +37,9 @@ Proof.
   unfold ip4_is_valid, ip4_ihl, ip4_totallen, ip4_protocol, ip4_src, ip4_dst, bytes_at. cbn [len].
   destruct (Nat.leb_spec 20 (len s - 14)); cbn [bind]; [|leaf].
   repeat (rd; cbn [bind]).
-  match goal with |- context [if Nat.leb ?a ?b then _ else _] => destruct (Nat.leb_spec a b) end; cbn [bind]; [|leaf].
+  dcond; cbn [bind]; [|leaf].
   repeat (rd; cbn [bind]).
-  match goal with |- context [if Nat.leb ?a ?b then _ else _] => destruct (Nat.leb_spec a b) end; cbn [bind]; [|leaf].
+  dcond; cbn [bind]; [|leaf].
   repeat (rd; cbn [bind]).
   apply parse_proto_post; auto; leaf.
 Qed.
